@@ -137,3 +137,118 @@ class SetExistingField(Contract):
         g = ctx.gfapy
         return [_case(ctx, g.line.segment.GFA1, "segment.GFA1"), _case(ctx, g.line.edge.Link, "edge.Link"), _case(ctx, g.line.edge.GFA2, "edge.GFA2"),
                 _case(ctx, g.line.Gap, "Gap"), _case(ctx, g.line.group.Unordered, "group.Unordered")]
+
+
+# ------------------------------------------------------------------------------------------- FieldData.set (the public entry)
+class _Flag:
+    """a container whose only observable is the membership of the field under consideration"""
+    def __init__(self, has, item=None):
+        self.has, self.item = has, item
+
+    def pyvc_contains(self, E, x):
+        return self.has
+
+    def pyvc_getitem(self, E, i, st):
+        yield ("val", self.item, st)
+
+    def pyvc_attr(self, E, attr, st):
+        if attr != "keys":
+            raise Unsupported("container.%s" % attr)
+        class K:
+            def pyvc_call(self, E, pos, kw, st):
+                yield ("val", [], st)                      # (only read for the text of an error message)
+        yield ("val", K(), st)
+
+
+@register
+class SetField(Contract):
+    fn = "gfapy/line/common/field_data.py::FieldData.set"
+    props = ("C20", "C07", "C08")
+    doc = ("set(name, value), by case: a field that exists or is predefined -> _set_existing_field; an alias -> set on the real name; a virtual "
+           "line -> RuntimeError; a NEW tag (level 0, or a valid custom tag name): refused with FormatError when the name shadows an attribute of "
+           "the line, handed to _set_existing_field when its datatype was declared, otherwise stored together with the DEFAULT datatype of the "
+           "value (datatype and value, nothing else; None stores nothing); any other name -> FormatError. Every refusal happens before any write")
+
+    def cases(self, ctx):
+        import builtins
+        g = ctx.gfapy
+        in_data, predefined, alias, virtual = z3.Bool("field_has_a_value"), z3.Bool("predefined_tag"), z3.Bool("alias"), z3.Bool("virtual")
+        vlevel, valid_name = z3.Int("vlevel"), z3.Bool("valid_custom_tag_name")
+        cls_attr, inst_attr, inst_dyn = z3.Bool("name_of_a_class_attribute"), z3.Bool("name_in_instance_dict"), z3.Bool("instance_entry_is_a_field_accessor")
+        declared, vnone = z3.Bool("datatype_declared"), z3.Bool("value_is_None")
+        s, val, real = Obj(g.Line, "line"), Obj(None, "value"), Obj(None, "real_name")
+        value = Opt(vnone, val)
+        entry = Obj(None, "instance_dict_entry")
+        def w(st, what):
+            return st.with_ghost("events", tuple(st.ghost.get("events", ())) + (what,))
+        class DataD(_Flag):
+            def pyvc_setitem(self, E, i, v, st):
+                v_ = v.val if isinstance(v, Opt) else v
+                yield ("fall", None, w(st, "data[field]=value" if v_ is val else "data[field]=other"))
+            def pyvc_getitem(self, E, i, st):
+                yield ("val", val, st)
+        class DtD:
+            def pyvc_attr(self, E, attr, st):
+                if attr != "get":
+                    raise Unsupported("_datatype.%s" % attr)
+                class G:
+                    def pyvc_call(self, E, pos, kw, st):
+                        yield ("val", Opt(z3.Not(declared), Obj(None, "declared_datatype")), st)
+                yield ("val", G(), st)
+            def pyvc_setitem(self, E, i, v, st):
+                yield ("fall", None, w(st, "datatype[field]=default" if isinstance(v, Obj) and v.tag == "default_datatype_of_value" else "datatype[field]=other"))
+        class Cls:
+            def pyvc_attr(self, E, attr, st):
+                if attr == "FIELD_ALIAS":
+                    yield ("val", _Flag(alias, real), st)
+                elif attr == "PREDEFINED_TAGS":
+                    yield ("val", [], st)                  # (only read for the text of an error message)
+                else:
+                    raise Unsupported("class attribute %s" % attr)
+        heap = {s.oid: {"_data": DataD(in_data), "_datatype": DtD(), "__class__": Cls(), "__dict__": _Flag(inst_attr, entry), "virtual": virtual, "vlevel": vlevel},
+                val.oid: {}, real.oid: {}, entry.oid: {}}
+        def m_existing(E, st, pos, kw):
+            ok = pos[0] is s and (pos[2] is value or (isinstance(pos[2], Opt) and pos[2].val is val) or pos[2] is val)
+            yield ("val", Obj(None, "result_of_set_existing"), [], w(st, "set_existing" if ok else "set_existing_wrong_args"))
+        def m_set(E, st, pos, kw):
+            ok = pos[0] is s and pos[1] is real
+            yield ("val", Obj(None, "result_of_set_real"), [], w(st, "set_real_name" if ok else "set_wrong_args"))
+        def m_hasattr(E, st, pos, kw):
+            yield ("val", cls_attr, [])
+        def m_isinstance(E, st, pos, kw):
+            if pos[0] is entry:
+                yield ("val", inst_dyn, [])
+            else:
+                raise Unsupported("isinstance(%r)" % (pos[0],))
+        def m_default(E, st, pos, kw):
+            yield ("val", Obj(None, "default_datatype_of_value"), [])
+        f = ctx.fn
+        models = {f("gfapy/line/common/field_data.py::FieldData._set_existing_field"): m_existing, f("gfapy/line/common/field_data.py::FieldData.set"): m_set,
+                  f("gfapy/line/common/validate.py::Validate._is_predefined_tag"): const_model(lambda *a: predefined),
+                  f("gfapy/line/common/validate.py::Validate._is_valid_custom_tagname"): const_model(lambda *a: valid_name),
+                  f("gfapy/line/common/dynamic_fields.py::DynamicFields._define_field_methods") if ctx.fn_opt("gfapy/line/common/dynamic_fields.py::DynamicFields._define_field_methods") else None: const_model(lambda *a: None),
+                  f("gfapy/field/field.py::Field._get_default_gfa_tag_datatype"): m_default,
+                  builtins.hasattr: m_hasattr, builtins.isinstance: m_isinstance,
+                  g.Line.positional_fieldnames.fget: const_model(lambda s_: []), g.Line.tagnames.fget: const_model(lambda s_: [])}
+        models.pop(None, None)
+        existing = z3.Or(in_data, predefined)
+        newtag = z3.And(z3.Not(existing), z3.Not(alias), z3.Not(virtual), z3.Or(vlevel == 0, valid_name))
+        shadows = z3.Or(cls_attr, z3.And(inst_attr, z3.Not(inst_dyn)))
+        def post(kd, v, st):
+            e = tuple(st.ghost.get("events", ()))
+            if kd == "raise":
+                c = [z3.BoolVal(e == ()), z3.BoolVal(issubclass(v.cls, g.Error))]
+                if v.cls is g.RuntimeError:
+                    c.append(z3.And(z3.Not(existing), z3.Not(alias), virtual))
+                elif v.cls is g.FormatError:
+                    c.append(z3.And(z3.Not(existing), z3.Not(alias), z3.Not(virtual), z3.Or(z3.And(newtag, shadows), z3.Not(z3.Or(vlevel == 0, valid_name)))))
+                else:
+                    c.append(z3.BoolVal(False))
+                return z3.And(*c)
+            want = z3.If(existing, 1, z3.If(alias, 2, z3.If(z3.And(newtag, z3.Not(shadows), declared), 1, z3.If(z3.And(newtag, z3.Not(shadows), z3.Not(vnone)), 3, 4))))
+            got = {("set_existing",): 1, ("set_real_name",): 2, ("datatype[field]=default", "data[field]=value"): 3, (): 4}.get(e, 0)
+            return z3.And(z3.Not(virtual) if got in (3, 4) else z3.BoolVal(True), want == got,
+                          z3.Implies(want == 4, z3.And(newtag, z3.Not(shadows), z3.Not(declared), vnone)))
+        sym = dict(field_has_a_value=in_data, predefined_tag=predefined, alias=alias, virtual=virtual, vlevel=vlevel, valid_custom_tag_name=valid_name,
+                   name_of_a_class_attribute=cls_attr, name_in_instance_dict=inst_attr, instance_entry_is_a_field_accessor=inst_dyn, datatype_declared=declared, value_is_None=vnone)
+        return [Case("by-case", [s, Obj(None, "fieldname"), value], post, pre=[vlevel >= 0, vlevel <= 3], heap=heap, models=models, symbols=sym, minimize=[vlevel])]
